@@ -15,6 +15,9 @@ re-established FOR THE GENERATED TABLE, so they speak about the code as it is wr
   `gen_wire_within_hand_rules`: whatever the code's rules can put on the wire is described by a request of the
   hand-written rules, core included;
 * `gen_scanned_all`, `gen_no_unknown`: every decorated method was scanned, no send was left unclassified;
+* `gen_mc_send`, `gen_bmpConnection`, `gen_bmp_dest`: the two `_send_scp` primitives themselves, read from the source: the
+  MachineController one passes its own (x, y, p) to the connection of `_get_connection(x, y)`; the model's
+  `bmpConnection` IS the chain of lookups the BMPController one performs, and it addresses (0, 0, board);
 * `gen_deferred`, `gen_lazy`: the only sends a method defers to a callback are `application`'s stop signal; the only
   lazily issued probe left out of the rules is `scp_data_length`'s sver to (255, 255, 0).
 -/
@@ -115,6 +118,33 @@ theorem gen_deferred : ∀ s ∈ sigs, genDeferred s.cls s.name =
 `get_software_version(255, 255, 0)` on first use (C07's subject; the harness presets the cached value) -/
 theorem gen_lazy : genLazy = [("MachineController", "scp_data_length",
     [.call "get_software_version" [.lit (.int 255), .lit (.int 255), .lit (.int 0)] []])] := by decide +kernel
+
+/-! ## the primitives: `_send_scp` itself, read from the source -/
+
+/-- `MachineController._send_scp(x, y, p, ..)` hands exactly its own (x, y, p) to the connection that
+`_get_connection(x, y)` names for the same chip (the `Op.scp` the rules are written in) -/
+theorem gen_mc_send : genMcSend = [.scp (.ref "x") (.ref "y") (.ref "p") none] := by decide +kernel
+
+/-- first key of the chain under which a connection exists -/
+def firstKey (conns : List (List Int)) : List (List Int) → Except Err (List Int)
+  | [] => .error .noConnection
+  | k :: ks => if conns.contains k then .ok k else firstKey conns ks
+
+def intOf (b : Dict) (e : Ex) : Int := ((evalEx b e).asInt?).getD 0
+
+/-- **`bmpConnection` is the lookup `BMPController._send_scp` performs**: the keys extracted from the source, in source
+order - (cabinet, frame, board), then (cabinet, frame) - and an error when neither has a connection -/
+theorem gen_bmpConnection (conns : List (List Int)) (c f b : Int) :
+    genBmpSendOk = true ∧
+    bmpConnection conns c f b =
+      firstKey conns (genBmpKeys.map (fun k => k.map (intOf [("cabinet", .int c), ("frame", .int f), ("board", .int b)]))) := by
+  refine ⟨by decide, ?_⟩
+  simp only [genBmpKeys, List.map, intOf, evalEx, lookupV, dget, Val.asInt?, firstKey, bmpConnection]
+  simp
+
+/-- ... and the datagram it hands to that connection is addressed (0, 0, board): what `Pat.matches` demands of a
+BMP datagram -/
+theorem gen_bmp_dest : genBmpDest = [.lit (.int 0), .lit (.int 0), .ref "board"] := by decide +kernel
 
 /-! ## worked instances -/
 
